@@ -3,7 +3,7 @@
 //!
 //! The compiling twin: a query is evaluated through a shared reference, and `Context` can be shared
 //! between threads (no interior mutability that is not thread-safe).
-//! ```
+//! ```no_run
 //! fn assert_sync<T: Sync + Send>() {}
 //! fn evaluate(ctx: &rink_core::Context, q: &rink_core::ast::Query) {
 //!     let _ = ctx.eval_query(q);
